@@ -188,6 +188,22 @@ def rule_translation(ctx):
     some_p = K("Option::Some", **{"0": ("call", "Atom::predicate", (("param", "$atom"),))})
     none_p = K("Option::None")
     ok = got_hp == {"definition": some_p, "unquantified-definition": some_p, "constraint": none_p, "equivalence-of-non-atom": none_p, "exists": none_p}
+    # every other way to miss the accepted shape: each connective but <-> with an atom on the left, the atom on the right only, a bare atom,
+    # a negated atom - bare and under a universal quantifier
+    FA = lambda f_: K("Formula::QuantifiedFormula", quantification=K("Quantification", quantifier=K("Quantifier::Forall"), variables=("param", "$vs")), formula=f_)
+    misses = {}
+    for conn in fx.variants("syntax_tree::fol::sigma_0::BinaryConnective"):
+        if conn != "Equivalence":
+            misses["atom %s F" % conn] = K("Formula::BinaryFormula", connective=K("BinaryConnective::" + conn), lhs=ATOMF, rhs=("param", "$B"))
+        misses["(not G) %s atom" % conn] = K("Formula::BinaryFormula", connective=K("BinaryConnective::" + conn), lhs=K("Formula::UnaryFormula", connective=("param", "$u"), formula=("param", "$g")), rhs=ATOMF)
+    misses["atom"] = ATOMF
+    misses["not atom"] = K("Formula::UnaryFormula", connective=("param", "$u"), formula=ATOMF)
+    for k_, sh_ in sorted(misses.items()):
+        for name_, shape_ in ((k_, sh_), ("forall " + k_, FA(sh_))):
+            r_ = _lv.norm(expand(("call", __import__("rules.flow", fromlist=["short"]).short(finders[0]), (shape_,))))
+            got_hp[name_] = r_
+            ok = ok and r_ == none_p
+    ok = ok and _lv.norm(expand(("call", __import__("rules.flow", fromlist=["short"]).short(finders[0]), (FA(FA(EQV)),)))) == some_p
     ctx.add("TPL", "head_predicate", ok, ctx.site(hp), "the defined predicate: forall* (p(..) <-> F) gives p, every other formula none", construct=got_hp)
     # renaming: only the program side, with the intersection of the private sets, suffix "p"
     mapping = rN[2][1]
